@@ -87,7 +87,7 @@ fn accept_once(f_cur: f64, f_cand: f64, t: f64, seed: u64) -> Result<u32, (Strin
 }
 
 fn acceptance_grid(rep: &Reporter) {
-    let objs = [-3.0, 0.0, 1e-20, 1.0, 1.0 + 1e-9, 2.0, 50.0, f64::MAX, f64::INFINITY];
+    let objs = [-3.0, 0.0, -0.0, 1e-20, 1.0, 1.0 + 1e-9, 2.0, 50.0, f64::MAX, f64::INFINITY];
     // incl. temperatures the cooling schedule reaches late in a run (alpha = 0 gives exactly 0)
     let temps = [0.0, 1e-300, 1e-24, 1e-12, 1e-3, 0.1, 1.0, 10.0, 1e6, 1e12, 1e300];
     let n = rep.tier.pick(5_000u64, 200_000u64);
